@@ -27,8 +27,10 @@ def prog_check_inherited(stack, mem):
 def prepare(rp, ce, params):
     m = ce.get("model") or {}
     tr = ce.get("trace") or []
+    if any(t.startswith("computed=") for t in tr):
+        return two_pass(ce, m, tr)
     if not any(t.startswith("parents=") for t in tr):
-        return None, "set-level / two-pass harness: not replayed natively"
+        return None, "set-level harness: not replayed natively"
     npar = trace_val(ce, "parents")
     if trace_val(ce, "big"): return None, "limit case: not replayed"
     pst = [(seq(m, f"ps{k}_") + [0] * 4)[:trace_val(ce, f"ps{k}_len")] for k in range(npar)]
@@ -65,4 +67,40 @@ def prepare(rp, ce, params):
         if "panic" in out: return True, "real code panics: " + out["panic"][:200]
         got = out.get("result") == "ok"
         return got != want_ok, f"reference: {'accept' if want_ok else 'reject'}; real two-pass check: {out.get('result')} {out.get('err', '')[:140]}"
+    return fields, judge
+
+
+def two_pass(ce, m, tr):
+    """the declared mutations of the model go through the real two-pass check; solution 0's predicate gets one leaf per
+    declared mutation that reads the key from the POST state of its contract and compares with the proposed value
+    (empty = deleted); every key has the pre-state value [4242], so a mutation missing from the post-state is observable"""
+    ns = 1 + trace_val(ce, "solutions")
+    sols, progs, pre, seen = [], [], [], set()
+    own = 1 + trace_val(ce, "contract0")
+    for s_ in range(ns):
+        ct = 1 + trace_val(ce, f"contract{s_}")
+        muts = []
+        for j in range(trace_val(ce, f"muts{s_}")):
+            k = (seq(m, f"k{s_}_{j}_") + [0])[:1]
+            v = (seq(m, f"v{s_}_{j}_") + [0])[:trace_val(ce, f"v{s_}_{j}_len")]
+            if (ct, tuple(k)) in seen: return None, "model has a duplicate (contract, key): outside the harness' assumption"
+            seen.add((ct, tuple(k)))
+            muts.append("[" + " ".join(map(str, k)) + "|" + " ".join(map(str, v)) + "]")
+            pre.append(f"{ct}:" + " ".join(map(str, k)) + "|4242")
+            ext = [sw(int.from_bytes(bytes([ct] * 8), "big"))] * 4
+            exp = [2, len(v)] + v
+            cap = len(exp)
+            ops = [f"Stack::Push:{cap}", "Memory::Alloc:0", "Stack::Pop:0"] + [f"Stack::Push:{w}" for w in ext] + [f"Stack::Push:{w}" for w in k] + \
+                  ["Stack::Push:1", "Stack::Push:1", "Stack::Push:0", "StateRead::PostKeyRangeExtern:0",
+                   "Stack::Push:0", f"Stack::Push:{cap}", "Memory::LoadRange:0"] + [f"Stack::Push:{w}" for w in exp] + [f"Stack::Push:{cap}", "Pred::EqRange:0"]
+            progs.append(";".join(ops))
+        sols.append(f"{ct},{10 + s_},,{';'.join(muts)}")
+    if not progs: return None, "no declared mutation: nothing observable"
+    fields = dict(kind="check_leaves", n=str(len(progs)), solutions=" // ".join(sols), pre=";".join(pre))
+    for i, p in enumerate(progs): fields[f"prog{i}"] = p
+
+    def judge(out):
+        if "panic" in out: return True, "real code panics: " + out["panic"][:200]
+        ok = out.get("result") == "ok"
+        return (not ok), f"leaf programs comparing post-state reads with the proposed values {'are satisfied' if ok else 'fail: ' + out.get('err', '')[:140]}"
     return fields, judge
